@@ -137,28 +137,55 @@ def r3_bridge(rep, facts):
                 got[f['name']] = inner[0]['name'] if inner else None
     rep.check(R, 'SpannedDeserializer::new', got.get('start') == 'start' and got.get('end') == 'end', f'start <- span.{got.get("start")}, end <- span.{got.get("end")}',
               f'SpannedDeserializer::new stores start <- span.{got.get("start")}, end <- span.{got.get("end")}', facts.loc(b))
-    order = {}
+    # the MapAccess protocol of SpannedDeserializer, evaluated on a model of its three slots: keys are offered as START, END, VALUE (each under its
+    # private field name) and every next_value_seed hands out the slot that belongs to the key offered just before, whatever the shape of the code
+    from .den import RecInterp, Unanalysable as UN, EvalPanic, Evaluator
+    SOME, NONE = 'core::option::Option::Some', 'core::option::Option::None'
+    meths = {}
     for meth in ('next_key_seed', 'next_value_seed'):
         dd = [x for x in facts.bodies if 'SpannedDeserializer' in x and last_seg(strip_generics(x)) == meth]
-        if not dd:
-            rep.incomplete(R, meth, 'not found')
-            continue
-        bb = facts.body(dd[0])
-        seq = []
-        n = peel(bb['body'].get('expr') or {})
-        while n.get('k') == 'if':
-            c = peel(n['cond'])
-            fld = [x['name'] for x in walk(c) if x.get('k') == 'field']
-            consts = [last_seg(x.get('path') or '') for x in walk(n['then']) if x.get('k') == 'path' and (x.get('path') or '').endswith('_FIELD')]
-            seq.append((fld[0] if fld else '?', consts[0] if consts else None))
-            n = peel(n.get('else') or {})
-            if n.get('k') == 'block' and n.get('expr') is not None and not n.get('stmts'):
-                n = peel(n['expr'])
-        order[meth] = seq
-    rep.check(R, 'next_key_seed|order', order.get('next_key_seed') == [('start', 'START_FIELD'), ('end', 'END_FIELD'), ('value', 'VALUE_FIELD')], str(order.get('next_key_seed')),
-              f'keys are offered as {order.get("next_key_seed")}', '')
-    rep.check(R, 'next_value_seed|order', [x[0] for x in order.get('next_value_seed', [])] == ['start', 'end', 'value'], str([x[0] for x in order.get('next_value_seed', [])]),
-              f'values are handed out in the order {[x[0] for x in order.get("next_value_seed", [])]}, keys in the order start, end, value', '')
+        if dd:
+            meths[meth] = facts.body(dd[0])
+    if len(meths) != 2:
+        rep.incomplete(R, 'next_key_seed|order', 'MapAccess methods of SpannedDeserializer not found')
+    else:
+        def const(name):
+            cb = [x for x in facts.bodies if x.endswith('::' + name) and x.startswith('serde_spanned::')]
+            from .den import Evaluator as EV
+            return bytes(EV(facts).bytes(facts.body(cb[0])['body'])).decode() if cb else None
+        names = {const('START_FIELD'): 'START_FIELD', const('END_FIELD'): 'END_FIELD', const('VALUE_FIELD'): 'VALUE_FIELD'}
+        state = {'start': ('ctor', SOME, ('START',)), 'end': ('ctor', SOME, ('END',)), 'value': ('ctor', SOME, ('VALUE',)), 'phantom_data': ('opaque',)}
+        selfv = ('struct', 'SpannedDeserializer', state)
+        keys, vals = [], []
+        try:
+            for step in range(4):
+                bb = meths['next_key_seed']
+                pn = [p['name'] for p in bb.get('params', []) if p.get('k') == 'p_bind']
+                it = RecInterp(Evaluator(facts), {'deserialize', 'into_deserializer'}, {'new'})
+                r = it.run(bb['body'], {pn[0]: selfv, pn[1]: ('seed',), '@assign': {}})
+                news = [a for nm, a in it.calls if nm == 'new']
+                if news and news[0] and isinstance(news[0][0], str):
+                    keys.append(names.get(news[0][0], news[0][0]))
+                else:
+                    keys.append(None)
+                    break
+                bb = meths['next_value_seed']
+                pn = [p['name'] for p in bb.get('params', []) if p.get('k') == 'p_bind']
+                it = RecInterp(Evaluator(facts), {'deserialize', 'into_deserializer'}, {'new'})
+                try:
+                    it.run(bb['body'], {pn[0]: selfv, pn[1]: ('seed',), '@assign': {}})
+                except EvalPanic:
+                    vals.append('panic')
+                    continue
+                ds = [a for nm, a in it.calls if nm == 'deserialize']
+                got = None
+                if ds and ds[0] and isinstance(ds[0][0], tuple) and ds[0][0][:2] == ('rec', 'into_deserializer'):
+                    got = ds[0][0][2]
+                vals.append(got)
+            rep.check(R, 'next_key_seed|order', keys == ['START_FIELD', 'END_FIELD', 'VALUE_FIELD', None], str(keys), f'keys are offered as {keys} (expected START_FIELD, END_FIELD, VALUE_FIELD, then the end of the map)', facts.loc(meths['next_key_seed']))
+            rep.check(R, 'next_value_seed|order', vals == ['START', 'END', 'VALUE'], str(vals), f'values are handed out in the order {vals}, keys in the order start, end, value', facts.loc(meths['next_value_seed']))
+        except UN as e:
+            rep.incomplete(R, 'next_key_seed|order', f'cannot evaluate the MapAccess protocol: {e}', facts.loc(meths['next_key_seed']))
     vm = [x for x in facts.bodies if 'serde_spanned::spanned::Spanned' in x and x.endswith('visit_map')]
     if not vm:
         rep.incomplete(R, 'serde_spanned|visit_map', 'not found')
